@@ -295,6 +295,10 @@ pub struct WorkPt {
     /// minimum step / maximum step (default 1e-7); the property quantifies over every ratio <= 1e-6
     #[serde(default)]
     pub dtmin_ratio: Option<f64>,
+    /// Some(tail): the interval is (maximum + minimum step)/2 + 3 maximum steps + tail x maximum step long, i.e. a solver
+    /// that runs at its maximum step is left with a final remainder far below the minimum step
+    #[serde(default)]
+    pub tail: Option<f64>,
 }
 pub struct Work;
 pub const W: f64 = 100.0;
@@ -304,7 +308,7 @@ impl Check for Work {
         "work"
     }
     fn rule(&self) -> String {
-        "6 adaptive solvers x 16 problems (incl. rest, rest exactly at the origin and relaxation to a steady state) x tolerance x maximum step {0.5, 0.1}/L x horizon {1, 4}/L, minimum step 1e-7 x maximum (and 1e-6, 1e-12, 1e-18 x maximum at one tolerance); the derivative closure counts calls and enforces a budget of 4x the bound; signature = (solver, end kind, work-factor class)".into()
+        "6 adaptive solvers x 16 problems (incl. rest, rest exactly at the origin and relaxation to a steady state) x tolerance x maximum step {0.5, 0.1, 5}/L x horizon {1, 4}/L (and horizons that leave a solver running at its maximum step a final remainder far below the minimum step), minimum step 1e-7 x maximum (and 1e-6, 1e-12, 1e-18 x maximum at one tolerance); the derivative closure counts calls and enforces a budget of 4x the bound; signature = (solver, end kind, work-factor class)".into()
     }
     fn axes(&self, t: Tier) -> Value {
         json!({"tol": t.pick(vec![1e-3, 1e-7], vec![1e-3, 1e-5, 1e-7, 1e-9]), "dtmax*L": [0.5, 0.1], "horizon*L": [1.0, 4.0], "W": W})
@@ -319,14 +323,22 @@ impl Check for Work {
                 for &tol in &t.pick(vec![1e-3, 1e-7], vec![1e-3, 1e-5, 1e-7, 1e-9]) {
                     for &dtmax_l in &[0.5, 0.1] {
                         for &horizon_l in &t.pick(vec![4.0], vec![1.0, 4.0]) {
-                            v.push(WorkPt { solver, problem: p.to_string(), tol, dtmax_l, horizon_l, dtmin_ratio: None });
+                            v.push(WorkPt { solver, problem: p.to_string(), tol, dtmax_l, horizon_l, dtmin_ratio: None, tail: None });
                         }
                     }
                 }
                 // minimum steps below the spacing of the doubles around the state (a step, difference or
                 // perturbation of that size is absorbed by rounding)
                 for &ratio in &[1e-6, 1e-12, 1e-18] {
-                    v.push(WorkPt { solver, problem: p.to_string(), tol: 1e-5, dtmax_l: 0.5, horizon_l: 4.0, dtmin_ratio: Some(ratio) });
+                    v.push(WorkPt { solver, problem: p.to_string(), tol: 1e-5, dtmax_l: 0.5, horizon_l: 4.0, dtmin_ratio: Some(ratio), tail: None });
+                }
+                // a maximum step a hundred times larger than the method can use (the controller has to come down from it)
+                for &tol in &t.pick(vec![1e-7], vec![1e-5, 1e-7, 1e-9]) {
+                    v.push(WorkPt { solver, problem: p.to_string(), tol, dtmax_l: 5.0, horizon_l: 4.0, dtmin_ratio: None, tail: None });
+                }
+                // a final remainder far below the minimum step
+                for &tail in &[1e-9, 3e-12, 0.0] {
+                    v.push(WorkPt { solver, problem: p.to_string(), tol: 1e-3, dtmax_l: 0.5, horizon_l: 4.0, dtmin_ratio: None, tail: Some(tail) });
                 }
             }
         }
@@ -340,7 +352,12 @@ impl Check for Work {
         let t1 = t0 + p.horizon_l / l0;
         let l = prob.lipschitz(t0, t1).max(1.0);
         let dtmax = p.dtmax_l / l;
-        let cfg = Cfg { tol: p.tol, dtmin: p.dtmin_ratio.unwrap_or(1e-7) * dtmax, dtmax, t0, t1 };
+        let dtmin = p.dtmin_ratio.unwrap_or(1e-7) * dtmax;
+        let t1 = match p.tail {
+            Some(tail) => t0 + 0.5 * (dtmax + dtmin) + 3.0 * dtmax + tail * dtmax,
+            None => t1,
+        };
+        let cfg = Cfg { tol: p.tol, dtmin, dtmax, t0, t1 };
         let (m1, _) = prob.derivative_scales(t0, t1);
         let pw = p.solver.work_order();
         let tt = t1 - t0;
